@@ -4,7 +4,13 @@ Monitors over generated pairs (a, b), at least one a cdata:
   * a == b  =>  hash(a) == hash(b)  (also through dict/set membership);
   * pointer-like cdata compare like their addresses (uintptr_t);
   * primitive cdata compare and hash like the Python value they convert to
-    (obtained independently by storing the cdata in memory and reading it).
+    (obtained independently by storing the cdata in memory and reading it);
+  * the same through sorted()/min()/max()/count()/index()/in over operand lists;
+  * pointer-like vs non-pointer: == False, != True, ordering TypeError (or one consistent order);
+  * primitive cdata whose conversion raises: comparisons and hash raise the same exception;
+  * history: hash / set membership of pointer-like cdata survive changes of the pointed-to memory.
+Pointer-like operands come from plain casts and from a 'zoo' of every creation route
+(build_zoo) whose addresses are known from the recipe.
 """
 import sys, os, math, struct
 from vlib import gen, core
@@ -14,13 +20,31 @@ RULE = ("case = pair (a, b) with at least one cdata; a/b drawn from: primitive c
         "complex, with values chosen so that pairs are often numerically equal across types "
         "(shared small pool, boundaries, -0.0, NaN, 2**53+1), pointer/array/struct/function cdata "
         "at shared and distinct addresses (same address through different types), and Python "
-        "ints/floats/bools/bytes/str; distinct = (repr a, repr b); non-trivial = the two operands "
-        "are not the same object")
+        "ints/floats/bools/bytes/str; pointer-like operands also come from a per-case 'zoo' of "
+        "differently created cdata over shared memory regions (ffi.new pointers/arrays/structs, "
+        "owning struct returned by value from a dlopen()ed function, p[0], ffi.addressof of "
+        "items/fields, pointer arithmetic, array slices of several lengths, pointers read back "
+        "from memory, ffi.from_buffer over bytearray/memoryview/bytes, ffi.gc wrappers, custom and "
+        "default allocators, new_handle, callbacks, dlopen()ed functions, NULL of several types) "
+        "with zeroed or random contents; primitive cdata also made by cast-from-cdata routes, and "
+        "wide-char cdata whose conversion to a Python value fails (error path of compare/hash); "
+        "Python operands include ints beyond 64 bits, Fraction, Decimal, int/float subclasses, "
+        "bytearray, memoryview; per case also sorted()/count()/index() over operand lists and a "
+        "mutate-memory-then-look-up history for hash stability; distinct = (repr a, repr b, "
+        "creation tags); non-trivial = the two operands are not the same object")
 ASSUMPTIONS = ["long double cdata have no Python value: only the eq=>hash implication is checked for them",
-               "wide-character cdata are generated with valid code points only"]
+               "wide-character cdata holding a unit that is no code point (conversion to a Python value "
+               "raises ValueError) have no Python value: their comparisons with non-pointers and their "
+               "hash are required to raise that same exception type, nothing else is judged for them",
+               "a pointer-like cdata against a non-pointer: == must be False, != its negation, and "
+               "the ordering operators must either raise TypeError or answer like a consistent total "
+               "order (the property gives such a pair no address to order by)",
+               "hash stability: the hash of a pointer-like cdata must not change when only the "
+               "pointed-to memory changes (its address, which defines ==, did not change)"]
 
-INTT = [t[0] for t in gen.INT_TYPES[:18]] + ['enum e1', 'enum e2']
-CDEF = "enum e1 { A1 = -1, B1 = 7 }; enum e2 { A2 = 0, B2 = 4000000000 }; struct s { int a; int b; }; union u { int a; char c; };"
+INTT = [t[0] for t in gen.INT_TYPES] + ['enum e1', 'enum e2']
+CDEF = "enum e1 { A1 = -1, B1 = 7 }; enum e2 { A2 = 0, B2 = 4000000000 }; struct s { int a; int b; }; union u { int a; char c; }; struct big { int x; struct s in[2]; int arr[3]; };"
+CDEF_LIB = "size_t strlen(const char *); typedef struct { int quot; int rem; } div_t; div_t div(int, int); void *malloc(size_t); void free(void *);"
 OPS = [('==', lambda a, b: a == b), ('!=', lambda a, b: a != b), ('<', lambda a, b: a < b),
        ('<=', lambda a, b: a <= b), ('>', lambda a, b: a > b), ('>=', lambda a, b: a >= b)]
 
@@ -32,12 +56,33 @@ def generate(ctx):
     return None, [{'seed': rng.getrandbits(48), 'n': per} for _ in range(n // per)]
 
 
+class _MyInt(int):
+    pass
+
+
+class _MyFloat(float):
+    pass
+
+
+def _ident(x):
+    return x
+
+
+def _nop(x):
+    pass
+
+
 def child_setup(setup, wd):
     from cffi import FFI
     ffi = FFI()
-    ffi.cdef(CDEF)
+    ffi.cdef(CDEF + CDEF_LIB)
     mem = ffi.new('char[]', 64)
-    return {'ffi': ffi, 'mem': mem}
+    try:
+        lib = ffi.dlopen(None)
+        lib.strlen, lib.div, lib.malloc, lib.free
+    except Exception:
+        lib = None
+    return {'ffi': ffi, 'mem': mem, 'lib': lib, 'cb': ffi.callback('int(int)', _ident)}
 
 
 POOL_INTS = [0, 1, -1, 2, 7, 65, 97, 127, 128, 255, 256, -128, 32767, 65535, 65536, 2 ** 31 - 1,
@@ -45,18 +90,268 @@ POOL_INTS = [0, 1, -1, 2, 7, 65, 97, 127, 128, 255, 256, -128, 32767, 65535, 655
              2 ** 64 - 1, 4000000000]
 POOL_FLOATS = [0.0, -0.0, 1.0, -1.0, 0.5, 65.0, 2.0 ** 31, 2.0 ** 53, 2.0 ** 63, 1e300, 1.5,
                float('inf'), float('-inf'), float('nan'), 16777217.0, 0.1]
+POOL_BIGINTS = [2 ** 64, 2 ** 64 + 1, -2 ** 63 - 1, -2 ** 64, 2 ** 100, -2 ** 100, 2 ** 64 + 255,
+                2 ** 1000]
 
 
-def make_operand(ffi, mem, rnd):
-    """returns (object, pyvalue-or-None, kind, address-or-None)"""
+def exotic_py(rnd):
+    """Python operands of less common types that still compare equal to numbers/bytes"""
+    from fractions import Fraction
+    from decimal import Decimal
+    k = rnd.randrange(8)
+    if k == 0:
+        return rnd.choice(POOL_BIGINTS), 'bigint'
+    if k == 1:
+        return rnd.choice([Fraction(1, 2), Fraction(3, 2), Fraction(0), Fraction(1), Fraction(-1),
+                           Fraction(65), Fraction(1, 10), Fraction(2 ** 53 + 1),
+                           Fraction(2 ** 63), Fraction(255)]), 'fraction'
+    if k == 2:
+        return rnd.choice([Decimal('0.5'), Decimal(0), Decimal(1), Decimal(-1), Decimal('0.1'),
+                           Decimal(65), Decimal('-0'), Decimal(2 ** 53 + 1), Decimal('Infinity'),
+                           Decimal('1.5'), Decimal(2 ** 64 - 1)]), 'decimal'
+    if k == 3:
+        return _MyInt(rnd.choice(POOL_INTS)), 'intsubclass'
+    if k == 4:
+        return _MyFloat(rnd.choice(POOL_FLOATS)), 'floatsubclass'
+    if k == 5:
+        return bytearray([rnd.choice([0, 65, 97, 127, 128, 255])]), 'bytearray'
+    if k == 6:
+        return memoryview(bytes([rnd.choice([0, 65, 97, 127, 128, 255])])), 'memoryview'
+    return rnd.choice([b'AB', 'A€', frozenset(), 1.5 + 0j, complex(65, 0), complex(0, 1),
+                       NotImplemented, Ellipsis]), 'otherobj'
+
+
+def build_zoo(st, rnd):
+    """pointer-like cdata created in every way the API offers, over a few shared memory
+    regions so that many of them have equal addresses.  Entry = (object, address, tag); the
+    address comes from the creation recipe (base + offset arithmetic in Python)."""
+    ffi, lib = st['ffi'], st['lib']
+    Z, keep, fillers = [], [], []
+    U = lambda x: int(ffi.cast('uintptr_t', x))
+
+    def add(obj, addr, tag):
+        Z.append((obj, addr, tag))
+
+    # -- region 1: int[8] from ffi.new
+    arr = ffi.new('int[8]')
+    A = U(arr)
+    keep.append(arr)
+    fillers.append(lambda r: [arr.__setitem__(i, r.randrange(-2 ** 31, 2 ** 31)) for i in range(8)])
+    add(arr, A, 'new_array')
+    for k in (0, 1, 2, 4):
+        add(arr + k, A + 4 * k, 'ptr_arith')
+        add(ffi.addressof(arr, k), A + 4 * k, 'addressof_item')
+        add(ffi.cast('void *', arr + k), A + 4 * k, 'cast_of_owner')
+        add(ffi.cast('char *', arr) + 4 * k, A + 4 * k, 'ptr_arith')
+        add(ffi.cast('struct s *', arr + k), A + 4 * k, 'cast_of_owner')
+        add(ffi.cast('struct s *', arr + k)[0], A + 4 * k, 'deref_struct')
+        add(ffi.cast('int(*)(int)', arr + k), A + 4 * k, 'cast_of_owner')
+    add((arr + 4) - 3, A + 4, 'ptr_arith')
+    for k, n in ((0, 2), (0, 3), (0, 8), (1, 2), (1, 1), (2, 1), (4, 4), (0, 0)):
+        add(arr[k:k + n], A + 4 * k, 'array_slice')
+    add(ffi.cast('int(*)[2]', arr)[0], A, 'deref_array')
+    add(ffi.cast('int(*)[5]', arr)[0], A, 'deref_array')
+    add(ffi.cast('int(*)[2]', arr + 2)[0], A + 8, 'deref_array')
+    add(ffi.cast('char(*)[4]', arr + 1)[0], A + 4, 'deref_array')
+    add(ffi.gc(arr, _nop), A, 'gc')
+    add(ffi.gc(arr + 1, _nop), A + 4, 'gc')
+    add(ffi.gc(ffi.cast('struct s *', arr), _nop)[0], A, 'gc')
+    # -- region 2: struct s[4]
+    sarr = ffi.new('struct s[4]')
+    S = U(sarr)
+    keep.append(sarr)
+
+    def fill_sarr(r):
+        for i in range(4):
+            sarr[i].a = r.randrange(-5, 5)
+            sarr[i].b = r.randrange(-5, 5)
+    fillers.append(fill_sarr)
+    add(sarr, S, 'new_array')
+    for k in range(4):
+        add(sarr[k], S + 8 * k, 'array_item_struct')
+        add(sarr + k, S + 8 * k, 'ptr_arith')
+        add(ffi.addressof(sarr[k]), S + 8 * k, 'addressof_struct')
+        add(ffi.addressof(sarr, k), S + 8 * k, 'addressof_item')
+        add(ffi.addressof(sarr[k], 'a'), S + 8 * k, 'addressof_field')
+        add(ffi.addressof(sarr[k], 'b'), S + 8 * k + 4, 'addressof_field')
+        add(ffi.cast('union u *', sarr + k)[0], S + 8 * k, 'deref_struct')
+    add(sarr[1:3], S + 8, 'array_slice')
+    # -- region 3: struct pointers from ffi.new, nested members
+    sp = ffi.new('struct s *')
+    P = U(sp)
+    keep.append(sp)
+    fillers.append(lambda r: (setattr(sp, 'a', r.randrange(-5, 5)), setattr(sp, 'b', r.randrange(-5, 5))))
+    add(sp, P, 'new_pointer')
+    add(sp[0], P, 'new_struct')
+    add(ffi.addressof(sp[0]), P, 'addressof_struct')
+    add(ffi.addressof(sp, 'b'), P + 4, 'addressof_field')
+    add(ffi.addressof(sp[0], 'a'), P, 'addressof_field')
+    ip = ffi.new('int *')
+    keep.append(ip)
+    add(ip, U(ip), 'new_pointer')
+    add(ip + 0, U(ip), 'ptr_arith')
+    big = ffi.new('struct big *')
+    B = U(big)
+    keep.append(big)
+    o_in, o_arr = ffi.offsetof('struct big', 'in'), ffi.offsetof('struct big', 'arr')
+
+    add(big, B, 'new_pointer')
+    add(big[0], B, 'new_struct')
+    add(ffi.addressof(big, 'x'), B, 'addressof_field')
+    bin_ = getattr(big, 'in')
+    add(bin_, B + o_in, 'field_array')
+    add(bin_[1], B + o_in + 8, 'nested_struct')
+    add(bin_[0], B + o_in, 'nested_struct')
+    add(ffi.addressof(bin_[1], 'b'), B + o_in + 12, 'addressof_field')
+    add(ffi.addressof(big, 'in'), B + o_in, 'addressof_field')
+    add(ffi.addressof(big[0], 'in', 1), B + o_in + 8, 'addressof_field')
+    add(big.arr, B + o_arr, 'field_array')
+    add(big.arr + 1, B + o_arr + 4, 'ptr_arith')
+    add(ffi.addressof(big, 'arr'), B + o_arr, 'addressof_field')
+
+    def fill_big2(r):
+        big.x = r.randrange(-5, 5)
+        for i in range(2):
+            bin_[i].a = r.randrange(-5, 5)
+            bin_[i].b = r.randrange(-5, 5)
+        for i in range(3):
+            big.arr[i] = r.randrange(-5, 5)
+    fillers.append(fill_big2)
+    # -- region 4: from_buffer
+    ba = bytearray(32)
+    fb = ffi.from_buffer(ba)
+    F = U(fb)
+    try:
+        import ctypes
+        ct = (ctypes.c_char * 32).from_buffer(ba)
+        if ctypes.addressof(ct) != F:
+            add(fb, ctypes.addressof(ct), 'from_buffer')   # reported as harness-address below
+        del ct
+    except ImportError:
+        pass
+    keep.append(ba)
+    fillers.append(lambda r: [ba.__setitem__(i, r.randrange(256)) for i in range(32)])
+    add(fb, F, 'from_buffer')
+    add(ffi.from_buffer('int[]', ba), F, 'from_buffer')
+    add(ffi.from_buffer('struct s[]', ba), F, 'from_buffer')
+    add(ffi.from_buffer('int *', ba), F, 'from_buffer')
+    add(ffi.from_buffer(memoryview(ba)[4:]), F + 4, 'from_buffer')
+    add(ffi.from_buffer('int[2]', memoryview(ba)[8:16]), F + 8, 'from_buffer')
+    add(fb + 4, F + 4, 'ptr_arith')
+    add(ffi.cast('int *', fb), F, 'cast_of_owner')
+    add(ffi.from_buffer('struct s[]', ba)[1], F + 8, 'array_item_struct')
+    bb = bytes(16)
+    fbb = ffi.from_buffer(bb)
+    keep.append(bb)
+    add(fbb, U(fbb), 'from_buffer')
+    add(ffi.from_buffer(bb), U(fbb), 'from_buffer')
+    # -- region 5: handles
+    hobj = [1, 2]
+    h = ffi.new_handle(hobj)
+    keep += [hobj, h]
+    H = U(h)
+    add(h, H, 'handle')
+    add(ffi.cast('void *', h), H, 'cast_of_owner')
+    add(ffi.cast('struct s *', h), H, 'cast_of_owner')
+    # -- region 6: callbacks
+    for cb in (st['cb'], ffi.callback('int(int)', _ident)):
+        C = U(cb)
+        keep.append(cb)
+        add(cb, C, 'callback')
+        add(ffi.cast('void *', cb), C, 'cast_of_owner')
+        add(ffi.cast('int(*)(int)', cb), C, 'cast_of_owner')
+        add(ffi.cast('long(*)(void)', cb), C, 'cast_of_owner')
+    # -- region 7: NULL of several types
+    add(ffi.NULL, 0, 'null')
+    add(ffi.cast('int *', 0), 0, 'null')
+    add(ffi.cast('int(*)(int)', 0), 0, 'null')
+    add(ffi.cast('struct s *', 0), 0, 'null')
+    add(ffi.cast('int *', ffi.NULL) + 0, 0, 'null')
+    # -- region 8: pointers read back from memory
+    pp = ffi.new('int *[4]', [arr, arr + 1, ffi.NULL, arr + 4])
+    keep.append(pp)
+    Q = U(pp)
+    add(pp, Q, 'new_array')
+    add(pp[0], A, 'ptr_from_memory')
+    add(pp[1], A + 4, 'ptr_from_memory')
+    add(pp[2], 0, 'ptr_from_memory')
+    add(pp[3], A + 16, 'ptr_from_memory')
+    add(pp + 1, Q + 8, 'ptr_arith')
+    add(ffi.addressof(pp, 1), Q + 8, 'addressof_item')
+    # -- region 9: allocators
+    a1 = ffi.new_allocator(should_clear_after_alloc=False)('int[4]')
+    for i in range(4):
+        a1[i] = 0
+    keep.append(a1)
+    fillers.append(lambda r: [a1.__setitem__(i, r.randrange(100)) for i in range(4)])
+    add(a1, U(a1), 'allocator_default')
+    add(a1 + 1, U(a1) + 4, 'ptr_arith')
+    # -- region 10: dlopen()ed library objects
+    if lib is not None:
+        fn = lib.strlen
+        L = U(fn)
+        add(fn, L, 'lib_function')
+        add(lib.strlen, L, 'lib_function')
+        add(ffi.cast('void *', fn), L, 'cast')
+        add(ffi.cast('int(*)(int)', fn), L, 'cast')
+        d = lib.div(7, 2)
+        keep.append(d)
+        D = U(ffi.addressof(d))
+        fillers.append(lambda r: setattr(d, 'quot', r.randrange(100)))
+        add(d, D, 'returned_struct')
+        add(ffi.addressof(d), D, 'addressof_struct')
+        add(ffi.addressof(d)[0], D, 'deref_struct')
+        add(ffi.addressof(d, 'rem'), D + 4, 'addressof_field')
+        add(ffi.cast('void *', ffi.addressof(d)), D, 'cast_of_owner')
+        d2 = lib.div(7, 2)
+        keep.append(d2)
+        add(d2, U(ffi.addressof(d2)), 'returned_struct')
+        a2 = ffi.new_allocator(lib.malloc, lib.free)('int[4]')
+        keep.append(a2)
+        fillers.append(lambda r: [a2.__setitem__(i, r.randrange(100)) for i in range(4)])
+        add(a2, U(a2), 'allocator_custom')
+        add(ffi.cast('int *', a2), U(a2), 'cast_of_owner')
+        a3 = ffi.new_allocator(lib.malloc, lib.free)('struct s *')
+        keep.append(a3)
+        add(a3, U(a3), 'allocator_custom')
+        add(a3[0], U(a3), 'deref_struct')
+        add(ffi.addressof(a3, 'b'), U(a3) + 4, 'addressof_field')
+    by_addr = {}
+    for e in Z:
+        by_addr.setdefault(e[1], []).append(e)
+    return {'Z': Z, 'keep': keep, 'fillers': fillers, 'by_addr': by_addr}
+
+
+def address_of(ffi, x):
+    if ffi.typeof(x).kind in ('struct', 'union'):
+        x = ffi.addressof(x)
+    return int(ffi.cast('uintptr_t', x))
+
+
+def make_operand(st, zoo, rnd):
+    """returns (object, kind, address-or-None, tag)"""
+    ffi, mem = st['ffi'], st['mem']
     r = rnd.random()
     if r < 0.30:
         T = rnd.choice(INTT)
         v = rnd.choice(POOL_INTS) if rnd.random() < 0.7 else gen.rand_int(rnd, 64)
-        c = ffi.cast(T, v)
-        return c, 'prim', None
+        route = rnd.random()
+        f = rnd.choice([0.0, 1.0, -1.0, 3.7, -3.7, 65.0, 255.0, 1e10, 2.0 ** 53])
+        T2 = rnd.choice(INTT)
+        try:
+            if 0.85 <= route < 0.90:    # cast from another primitive cdata
+                return ffi.cast(T, ffi.cast(T2, v)), 'prim', None, 'cast_cdata'
+            if 0.90 <= route < 0.94:    # cast from a float (truncation)
+                return ffi.cast(T, f), 'prim', None, 'cast_float'
+            if 0.94 <= route < 0.97:    # cast from a pointer cdata
+                return ffi.cast(T, ffi.cast('void *', v & (2 ** 64 - 1))), 'prim', None, 'cast_pointer'
+            if 0.97 <= route:
+                return ffi.cast(T, bytes([v & 255])), 'prim', None, 'cast_bytes'
+        except (TypeError, OverflowError, ValueError):
+            pass
+        return ffi.cast(T, v), 'prim', None, 'cast_int'
     if r < 0.36:
-        return ffi.cast('_Bool', rnd.choice([0, 1, 2])), 'prim', None
+        return ffi.cast('_Bool', rnd.choice([0, 1, 2])), 'prim', None, 'bool'
     if r < 0.44:
         T = rnd.choice(['char', 'wchar_t', 'char16_t', 'char32_t'])
         if T == 'char':
@@ -64,19 +359,31 @@ def make_operand(ffi, mem, rnd):
         else:
             v = rnd.choice([65, 97, 0xe9, 0x20ac, 0xffff if T != 'char16_t' else 0xfffd,
                             0x1f600 if T != 'char16_t' else 0x41, 0])
-        return ffi.cast(T, v), 'prim', None
+        q = rnd.random()
+        if q < 0.10 and T in ('wchar_t', 'char32_t'):
+            # a unit that is no code point: converting it to a Python value raises
+            return ffi.cast(T, rnd.choice([0x110000, 0xffffffff, 0x7fffffff])), 'unconv', None, \
+                'wchar_invalid'
+        if q < 0.25:
+            return ffi.cast(T, bytes([v]) if T == 'char' else chr(v)), 'prim', None, 'cast_str'
+        return ffi.cast(T, v), 'prim', None, 'char'
     if r < 0.56:
         T = rnd.choice(['float', 'double'])
         v = rnd.choice(POOL_FLOATS) if rnd.random() < 0.7 else float(rnd.choice(POOL_INTS))
-        return ffi.cast(T, v), 'prim', None
+        if rnd.random() < 0.1:
+            return ffi.cast(T, ffi.cast('double', v)), 'prim', None, 'cast_cdata'
+        return ffi.cast(T, v), 'prim', None, 'float'
     if r < 0.60:
         v = rnd.choice(POOL_FLOATS + [float(x) for x in POOL_INTS[:8]])
-        return ffi.cast('long double', v), 'longdouble', None
+        return ffi.cast('long double', v), 'longdouble', None, 'longdouble'
     if r < 0.64:
         T = rnd.choice(['float _Complex', 'double _Complex'])
         z = complex(rnd.choice(POOL_FLOATS[:8]), rnd.choice([0.0, 0.0, 1.0, -0.0]))
-        return ffi.cast(T, z), 'prim', None
+        return ffi.cast(T, z), 'prim', None, 'complex'
     if r < 0.84:
+        if rnd.random() < 0.55:
+            obj, addr, tag = rnd.choice(zoo['Z'])
+            return obj, 'ptr', addr, tag
         off = rnd.choice([0, 0, 4, 8, 8, 16])
         addr = int(ffi.cast('uintptr_t', mem)) + off
         k = rnd.randrange(8)
@@ -97,20 +404,23 @@ def make_operand(ffi, mem, rnd):
             c, addr = ffi.cast('char *', a2), a2
         else:
             c = ffi.cast('struct s *', addr)
-        return c, 'ptr', addr
+        return c, 'ptr', addr, 'cast'
     # plain Python values
+    if rnd.random() < 0.25:
+        v, tag = exotic_py(rnd)
+        return v, 'py', None, tag
     k = rnd.randrange(6)
     if k == 0:
-        return rnd.choice(POOL_INTS), 'py', None
+        return rnd.choice(POOL_INTS), 'py', None, 'int'
     if k == 1:
-        return rnd.choice(POOL_FLOATS), 'py', None
+        return rnd.choice(POOL_FLOATS), 'py', None, 'float'
     if k == 2:
-        return rnd.choice([True, False]), 'py', None
+        return rnd.choice([True, False]), 'py', None, 'bool'
     if k == 3:
-        return bytes([rnd.choice([0, 65, 97, 127, 128, 255])]), 'py', None
+        return bytes([rnd.choice([0, 65, 97, 127, 128, 255])]), 'py', None, 'bytes'
     if k == 4:
-        return chr(rnd.choice([65, 97, 0xe9, 0x20ac, 0x1f600, 0])), 'py', None
-    return rnd.choice([None, 'ab', b'', (1,), complex(1, 0), complex(0.5, 0)]), 'py', None
+        return chr(rnd.choice([65, 97, 0xe9, 0x20ac, 0x1f600, 0])), 'py', None, 'str'
+    return rnd.choice([None, 'ab', b'', (1,), complex(1, 0), complex(0.5, 0)]), 'py', None, 'otherobj'
 
 
 def pyvalue(ffi, c):
@@ -131,81 +441,237 @@ def same_outcome(x, y):
     return x == y
 
 
+def srepr(ffi, x, kind):
+    if kind == 'unconv':        # repr() itself converts and raises
+        return '<cdata %r unit %#x (no code point)>' % (ffi.typeof(x).cname, int(x))
+    return repr(x)
+
+
+def check_pair(rep, ffi, A, B, detail):
+    a, ka, aa, ta = A
+    b, kb, ab, tb = B
+    ra, rb = srepr(ffi, a, ka), srepr(ffi, b, kb)
+    rep.case((ra, rb, ta, tb), nontrivial=a is not b, sample={'a': ra, 'b': rb})
+    rep.stat('pair_%s_%s' % (ka, kb))
+    for k, t in ((ka, ta), (kb, tb)):
+        rep.stat({'ptr': 'ptr_made_by_', 'py': 'py_type_'}.get(k, 'prim_made_by_') + t)
+    res = dict((name, outcome(f, a, b)) for name, f in OPS)
+    # 1. eq => hash
+    eq = res['==']
+    if eq == ('ok', True):
+        rep.stat('equal_pairs')
+        try:
+            ha, hb = hash(a), hash(b)
+        except TypeError:
+            ha = hb = None
+        except Exception as e:
+            ha, hb = None, 'raises %s' % type(e).__name__
+        if ha != hb:
+            rep.bad('eq-without-equal-hash', '%s == %s but hash %r != %r' % (ra, rb, ha, hb),
+                    detail)
+        elif ha is not None:
+            d = {a: 1}
+            if b not in d or len({a, b}) != 1:
+                rep.bad('eq-but-distinct-dict-keys', '%s == %s but they are distinct dict/set '
+                        'keys' % (ra, rb), detail)
+    # 2. pointer-like: as addresses
+    if ka == 'ptr' and kb == 'ptr':
+        rep.stat('pointer_pairs')
+        if aa == ab:
+            rep.stat('pointer_pairs_same_address')
+        for name, f in OPS:
+            got = res[name]
+            exp = ('ok', f(aa, ab))
+            if got != exp:
+                rep.bad('pointer-compare', '%s [%s] %s %s [%s] -> %r, addresses %#x %s %#x -> %r' %
+                        (ra, ta, name, rb, tb, got, aa, name, ab, exp), detail)
+        for x, xa, rx in ((a, aa, ra), (b, ab, rb)):
+            if address_of(ffi, x) != xa:
+                rep.bad('harness-address', 'address bookkeeping wrong for %s' % rx, detail)
+    # 3. primitive: as the Python value
+    if (ka == 'prim' or kb == 'prim') and 'longdouble' not in (ka, kb) and \
+            'ptr' not in (ka, kb) and 'unconv' not in (ka, kb):
+        try:
+            va = pyvalue(ffi, a) if ka == 'prim' else a
+            vb = pyvalue(ffi, b) if kb == 'prim' else b
+        except Exception as e:
+            rep.bad('harness-pyvalue', 'cannot obtain python value of %s / %s: %s' % (ra, rb, e),
+                    detail)
+            return
+        rep.stat('primitive_pairs')
+        for name, f in OPS:
+            got = res[name]
+            exp = outcome(f, va, vb)
+            if got != exp:
+                rep.bad('primitive-compare', '%s %s %s -> %r, but python values %r %s %r -> %r'
+                        % (ra, name, rb, got, va, name, vb, exp), detail)
+        for c, v, k in ((a, va, ka), (b, vb, kb)):
+            if k == 'prim':
+                if v != v:
+                    continue    # hash(nan) depends on object identity since Python 3.10
+                hc = outcome(lambda x, y: hash(x), c, None)
+                hv = outcome(lambda x, y: hash(x), v, None)
+                if hc != hv:
+                    rep.bad('primitive-hash', 'hash(%r) -> %r, hash(%r) -> %r' %
+                            (c, hc, v, hv), detail)
+    # 4. primitive whose conversion to a Python value raises: there is no value to compare or
+    #    hash as, so every comparison with a non-pointer and hash() raise the same exception
+    if 'unconv' in (ka, kb) and 'ptr' not in (ka, kb) and 'longdouble' not in (ka, kb):
+        convs = [outcome(lambda x, y: pyvalue(ffi, x), x, None)
+                 for x, k in ((a, ka), (b, kb)) if k == 'unconv']
+        if any(c[0] == 'ok' for c in convs) or len(set(convs)) != 1:
+            rep.stat('unconvertible_but_converted')
+        else:
+            rep.stat('unconvertible_pairs')
+            for name, f in OPS:
+                if res[name] != convs[0]:
+                    rep.bad('unconvertible-compare', '%s %s %s -> %r although converting the '
+                            'operand to a Python value -> %r' % (ra, name, rb, res[name], convs[0]),
+                            detail)
+            for x, k, rx in ((a, ka, ra), (b, kb, rb)):
+                if k == 'unconv':
+                    hx = outcome(lambda x, y: hash(x), x, None)
+                    if hx != convs[0]:
+                        rep.bad('unconvertible-hash', 'hash(%s) -> %r although converting it to a '
+                                'Python value -> %r' % (rx, hx, convs[0]), detail)
+    if ka == 'ptr' and kb in ('prim', 'py', 'longdouble', 'unconv') or \
+            kb == 'ptr' and ka in ('prim', 'py', 'longdouble', 'unconv'):
+        # mixed: never equal; != is the negation; ordering is a TypeError like unrelated Python
+        # objects (or, if it answers at all, answers like one consistent total order)
+        rep.stat('mixed_pairs')
+        if eq != ('ok', False):
+            rep.bad('pointer-vs-primitive-eq', '%s == %s -> %r' % (ra, rb, eq), detail)
+        elif res['!='] != ('ok', True):
+            rep.bad('mixed-ne-not-negation-of-eq', '%s == %s -> %r but != -> %r' %
+                    (ra, rb, eq, res['!=']), detail)
+        order = [res[n] for n in ('<', '<=', '>', '>=')]
+        if all(o == ('exc', 'TypeError') for o in order):
+            rep.stat('mixed_ordering_typeerror')
+        else:
+            lt, le, gt, ge = order
+            ok = all(o[0] == 'ok' and isinstance(o[1], bool) for o in order) and \
+                eq[0] == 'ok' and (lt[1] + gt[1] + bool(eq[1]) == 1) and \
+                le[1] == (lt[1] or bool(eq[1])) and ge[1] == (gt[1] or bool(eq[1]))
+            if not ok:
+                rep.bad('mixed-ordering-inconsistent', '%s vs %s: == %r < %r <= %r > %r >= %r is '
+                        'neither TypeError nor a consistent order' % (ra, rb, eq, lt, le, gt, ge),
+                        detail)
+
+
+def check_lists(rep, st, zoo, rnd, detail):
+    """sorted()/count()/index()/min()/max() over operand lists: the sequence protocol reaches
+    == and < through PyObject_RichCompare, and must agree with addresses / Python values"""
+    ffi = st['ffi']
+    for _ in range(6):
+        L = []
+        while len(L) < 24:
+            x = make_operand(st, zoo, rnd)
+            if x[1] == 'ptr':
+                L.append(x)
+        objs = [x[0] for x in L]
+        addrs = [x[2] for x in L]
+        rep.stat('pointer_lists')
+        got = outcome(lambda o, _: sorted(range(len(o)), key=lambda i: o[i]), objs, None)
+        exp = ('ok', sorted(range(len(L)), key=lambda i: addrs[i]))
+        if got != exp:
+            rep.bad('pointer-sort-order', 'sorted() of %r gives index order %r, addresses %r give %r'
+                    % (objs, got, ['%#x' % v for v in addrs], exp), detail)
+        for f, nm in ((min, 'min'), (max, 'max')):
+            g = outcome(lambda o, _: address_of(ffi, f(o)), objs, None)
+            if g != ('ok', f(addrs)):
+                rep.bad('pointer-sort-order', '%s() of %r -> %r, addresses say %#x' %
+                        (nm, objs, g, f(addrs)), detail)
+        probe_addr = rnd.choice(addrs)
+        probe = ffi.cast('char *', probe_addr)
+        g = outcome(lambda o, p: (o.count(p), o.index(p), p in o), objs, probe)
+        e = ('ok', (addrs.count(probe_addr), addrs.index(probe_addr), True))
+        if g != e:
+            rep.bad('pointer-list-membership', 'count/index/in of %r in %r -> %r, addresses say %r'
+                    % (probe, objs, g, e), detail)
+    for _ in range(6):
+        L = []
+        while len(L) < 24:
+            x = make_operand(st, zoo, rnd)
+            if x[1] == 'prim' and x[3] not in ('char', 'cast_str', 'complex') and \
+                    ffi.typeof(x[0]).cname != 'char':
+                L.append(x)
+        objs = [x[0] for x in L]
+        try:
+            vals = [pyvalue(ffi, o) for o in objs]
+        except Exception as e:
+            rep.bad('harness-pyvalue', 'cannot obtain python values: %s' % e, detail)
+            continue
+        rep.stat('primitive_lists')
+        got = outcome(lambda o, _: sorted(range(len(o)), key=lambda i: o[i]), objs, None)
+        exp = outcome(lambda o, _: sorted(range(len(o)), key=lambda i: o[i]), vals, None)
+        if got != exp:
+            rep.bad('primitive-sort-order', 'sorted() of %r gives index order %r, python values %r '
+                    'give %r' % (objs, got, vals, exp), detail)
+        pv = rnd.choice(vals)
+        g = outcome(lambda o, p: (o.count(p), o.index(p), p in o), objs, pv)
+        e = outcome(lambda o, p: (o.count(p), o.index(p), p in o), vals, pv)
+        if g != e and pv == pv:
+            rep.bad('primitive-list-membership', 'count/index/in of %r in %r -> %r, python values '
+                    '%r say %r' % (pv, objs, g, vals, e), detail)
+
+
+def check_stability(rep, st, zoo, rnd, detail):
+    """history: hash and set membership of pointer-like cdata recorded, then only the
+    pointed-to memory is changed; the same objects (and fresh cdata at the same addresses)
+    must still be found"""
+    ffi = st['ffi']
+    Z = zoo['Z']
+    before = [hash(e[0]) for e in Z]
+    members = set(e[0] for e in Z)
+    for fill in zoo['fillers']:
+        fill(rnd)
+    for (obj, addr, tag), h0 in zip(Z, before):
+        rep.stat('stability_probes')
+        h1 = hash(obj)
+        if h1 != h0:
+            rep.bad('hash-not-stable', 'hash(%r) [%s] was %r and is %r after the pointed-to memory '
+                    'changed' % (obj, tag, h0, h1), detail)
+        elif obj not in members or ffi.cast('char *', addr) not in members:
+            rep.bad('eq-but-distinct-dict-keys', '%r [%s] (or a char* at its address) is no longer '
+                    'found in a set it was put in before the pointed-to memory changed' %
+                    (obj, tag), detail)
+
+
 def child_case(st, case):
     import random
-    ffi, mem = st['ffi'], st['mem']
+    ffi = st['ffi']
     rnd = random.Random(case['seed'])
     rep = core.ChildRep()
+    detail = case['seed']
+    zoo = build_zoo(st, rnd)
+    for obj, addr, tag in zoo['Z']:
+        if outcome(lambda x, y: address_of(ffi, x), obj, None) != ('ok', addr):
+            rep.bad('harness-address', 'zoo address bookkeeping wrong for %r [%s]' % (obj, tag),
+                    detail)
+    if rnd.random() < 0.5:
+        rep.stat('cases_random_memory_content')
+        for fill in zoo['fillers']:
+            fill(rnd)
+    else:
+        rep.stat('cases_zeroed_memory_content')
     for _ in range(case['n']):
-        a, ka, aa = make_operand(ffi, mem, rnd)
-        b, kb, ab = make_operand(ffi, mem, rnd)
-        if ka == 'py' and kb == 'py':
+        A = make_operand(st, zoo, rnd)
+        B = make_operand(st, zoo, rnd)
+        if A[1] == 'py' and B[1] == 'py':
             continue
-        if rnd.random() < 0.03:
-            b, kb, ab = a, ka, aa
-        ra, rb = repr(a), repr(b)
-        rep.case((ra, rb), nontrivial=a is not b, sample={'a': ra, 'b': rb})
-        rep.stat('pair_%s_%s' % (ka, kb))
-        detail = case['seed']
-        # 1. eq => hash
-        eq = outcome(lambda x, y: x == y, a, b)
-        if eq == ('ok', True):
-            rep.stat('equal_pairs')
-            try:
-                ha, hb = hash(a), hash(b)
-            except TypeError:
-                ha = hb = None
-            if ha != hb:
-                rep.bad('eq-without-equal-hash', '%s == %s but hash %r != %r' % (ra, rb, ha, hb),
-                        detail)
-            elif ha is not None:
-                d = {a: 1}
-                if b not in d or len({a, b}) != 1:
-                    rep.bad('eq-but-distinct-dict-keys', '%s == %s but they are distinct dict/set '
-                            'keys' % (ra, rb), detail)
-        # 2. pointer-like: as addresses
-        if ka == 'ptr' and kb == 'ptr':
-            rep.stat('pointer_pairs')
-            for name, f in OPS:
-                got = outcome(f, a, b)
-                exp = ('ok', f(aa, ab))
-                if got != exp:
-                    rep.bad('pointer-compare', '%s %s %s -> %r, addresses %#x %s %#x -> %r' %
-                            (ra, name, rb, got, aa, name, ab, exp), detail)
-            if int(ffi.cast('uintptr_t', a if ffi.typeof(a).kind not in ('struct', 'union')
-                            else ffi.addressof(a))) != aa:
-                rep.bad('harness-address', 'address bookkeeping wrong for %s' % ra, detail)
-        # 3. primitive: as the Python value
-        if (ka == 'prim' or kb == 'prim') and 'longdouble' not in (ka, kb) and \
-                'ptr' not in (ka, kb):
-            try:
-                va = pyvalue(ffi, a) if ka == 'prim' else a
-                vb = pyvalue(ffi, b) if kb == 'prim' else b
-            except Exception as e:
-                rep.bad('harness-pyvalue', 'cannot obtain python value of %s / %s: %s' % (ra, rb, e),
-                        detail)
-                continue
-            rep.stat('primitive_pairs')
-            for name, f in OPS:
-                got = outcome(f, a, b)
-                exp = outcome(f, va, vb)
-                if got != exp:
-                    rep.bad('primitive-compare', '%s %s %s -> %r, but python values %r %s %r -> %r'
-                            % (ra, name, rb, got, va, name, vb, exp), detail)
-            for c, v, k in ((a, va, ka), (b, vb, kb)):
-                if k == 'prim':
-                    if v != v:
-                        continue    # hash(nan) depends on object identity since Python 3.10
-                    hc = outcome(lambda x, y: hash(x), c, None)
-                    hv = outcome(lambda x, y: hash(x), v, None)
-                    if hc != hv:
-                        rep.bad('primitive-hash', 'hash(%r) -> %r, hash(%r) -> %r' %
-                                (c, hc, v, hv), detail)
-        if ka == 'ptr' and kb in ('prim', 'py', 'longdouble') or \
-                kb == 'ptr' and ka in ('prim', 'py', 'longdouble'):
-            # mixed: never equal, ordering is a TypeError like unrelated Python objects
-            if eq != ('ok', False):
-                rep.bad('pointer-vs-primitive-eq', '%s == %s -> %r' % (ra, rb, eq), detail)
+        r = rnd.random()
+        if A[1] == 'ptr' and B[1] != 'ptr' and rnd.random() < 0.4:
+            while B[1] != 'ptr':        # more pointer/pointer pairs
+                B = make_operand(st, zoo, rnd)
+        if r < 0.03:
+            B = A
+        elif A[1] == 'ptr' and B[1] == 'ptr' and r < 0.30 and A[2] in zoo['by_addr']:
+            # another differently created cdata at the same address
+            e = rnd.choice(zoo['by_addr'][A[2]])
+            B = (e[0], 'ptr', e[1], e[2])
+        check_pair(rep, ffi, A, B, detail)
+    check_lists(rep, st, zoo, rnd, detail)
+    check_stability(rep, st, zoo, rnd, detail)
     return rep.result()
 
 
